@@ -1,7 +1,7 @@
 (* C09 - property theorems only; proofs live in Client/ClientLemmas.v, Client/ClientProofs.v,
    Client/CheckProofs.v *)
 From VT Require Import Client.ClientLemmas Client.CliCheck Client.ClientProofs Client.Witness.
-From VT Require Import Check.C09Check Client.CheckProofs Client.HistoryProofs Check.C09XCheck Client.ClientXProofs.
+From VT Require Import Check.C09Check Client.CheckProofs Client.HistoryProofs Check.C09XCheck Client.ClientXProofs Client.C09ModelProofs.
 Open Scope N_scope.
 
 (* ack-id invariant: after every history (any length, any configuration) and in every intermediate
@@ -124,7 +124,10 @@ Theorem C09_call_result : forall c s ev data pns r tbl fr p enc pns',
   ns_or_default pns' = ns ->
   rs (api_call c ev data pns (Some r) tbl) s = Ok (shape_result r) /\
   filter observable (ef (api_call c ev data pns (Some r) tbl) s) = map Sent fr /\
-  outstanding (callbacks (st (api_call c ev data pns (Some r) tbl) s)) ns (Some (Z.of_N id)) = None.
+  outstanding (callbacks (st (api_call c ev data pns (Some r) tbl) s)) ns (Some (Z.of_N id)) = None /\
+  st (api_call c ev data pns (Some r) tbl) s
+  = with_callbacks (st (generate_ack_id ns CbInt) s)
+                   (drop_callback (callbacks (st (generate_ack_id ns CbInt) s)) ns id).
 Proof. exact call_result. Qed.
 Print Assumptions C09_call_result.
 Theorem C09_call_timeout : forall c s ev data pns tbl fr,
@@ -200,3 +203,20 @@ Theorem C09_nested_model_passes_checker :
     [Call 5 [PBytes [122; 122]]; Sent (PStr (s2l "3/a,8[""n""]"))] ].
 Proof. exact nested_model_passes_checker. Qed.
 Print Assumptions C09_nested_model_passes_checker.
+
+(* the clause checker accepts the MODEL's own run.  Per operation, in every state satisfying the ack-id
+   invariant: every server message whatsoever (event / ack / unknown-ignored clauses), every emit / send
+   with a callback (unique clause), and call() inside [c09_dom] (its EVENT can be encoded; if the scenario
+   answers it, the transport is up, no binary packet is pending and the oracle table decodes the reply
+   frame back to the ACK it encodes - the codec round trip, C01) *)
+Theorem C09_step_model : forall c s o,
+  cb_inv s -> c09_dom c s o ->
+  c09_step c s (dump_of s) o (filter observable (snd (step c s o))) (dump_of (fst (step c s o))) = O.
+Proof. exact c09_step_model. Qed.
+Print Assumptions C09_step_model.
+(* ... hence for EVERY history in that domain whose emit / send callbacks are pairwise distinct objects: the
+   whole checker (correspondence bit, every clause at every operation, no callback twice) returns 0 *)
+Theorem C09_model_passes_checker : forall c ops,
+  dom_run c cli_init ops -> NoDup (flat_map op_refs ops) -> c09_code (model_case c ops) = 0%nat.
+Proof. exact model_passes_checker. Qed.
+Print Assumptions C09_model_passes_checker.
